@@ -167,11 +167,14 @@ def parse_template(lines, flavour):
             n = int(s.split()[1])
             sink = cur.loops.setdefault(n, [])
         elif s.startswith("//@before ") or s.startswith("//@after "):
-            m = re.match(r"//@(before|after)\s+`(.*)`\s*$", s)
+            m = re.match(r"//@(before|after)\s+`(.*)`\s*(?:#(\d+)/(\d+))?\s*$", s)
             if not m:
                 raise ExtractError("bad splice at %s" % origin)
             sink = []
-            cur.splices.append((m.group(1), m.group(2).split("` | `"), sink))
+            pats = m.group(2).split("` | `")
+            if m.group(3):
+                pats = (pats, int(m.group(3)), int(m.group(4)))
+            cur.splices.append((m.group(1), pats, sink))
         elif s.startswith("//@loop-end "):
             sink = []
             cur.splices.append(("loop-end", int(s.split()[1]), sink))
@@ -453,6 +456,27 @@ def apply_R9(body, stats):
 
 
 
+def apply_R15(body, stats):
+    """`continue` in tail position of a for-loop body (Verus: "for-loops do not yet support
+    continue") -> `{}`.  Tail position: nothing but closing braces / commas follows up to the end
+    of the loop body.  Any other `continue` inside a `for` is left alone (Verus rejects it -> exit 2)."""
+    m = mask(body)
+    loops = [l for l in find_loops(m) if l["kw"] == "for"]
+    edits = []
+    for mm in re.finditer(r"(?<![\w])continue\b", m):
+        encl = [l for l in loops if l["hdr_end"] < mm.start() < l["body_close"]]
+        if not encl:
+            continue
+        l = max(encl, key=lambda x: x["hdr_end"])
+        rest = m[mm.end():l["body_close"]]
+        if re.fullmatch(r"[\s,;}]*", rest):
+            edits.append((mm.start(), mm.end()))
+    for a, b in reversed(edits):
+        body = body[:a] + "{}" + body[b:]
+        stats["R15"] = stats.get("R15", 0) + 1
+    return body
+
+
 def find_loops(m):
     """offsets of loop keywords in text order with their header end ('{')"""
     res = []
@@ -632,6 +656,7 @@ def generate(template_path, flavour, repo="/repo", vacuity=False, rules=None):
             body = "\n        let mut slf = self;" + re.sub(r"(?<![\w.])self\b", "slf", body)
             stats["R14"] = stats.get("R14", 0) + 1
         body = apply_R5(body, stats)
+        body = apply_R15(body, stats)
         body = apply_R7(body, stats)
         guards = []
         if b.heap == "mut":
@@ -674,11 +699,16 @@ def generate(template_path, flavour, repo="/repo", vacuity=False, rules=None):
                     raise ExtractError("%s: loop-end %d: no such loop" % (b.id, pat))
                 edits.append((t, t, txt, 0))
             else:
+                nth, total = 1, 1
+                if isinstance(pat, tuple):
+                    pat, nth, total = pat
                 ms = []
                 for alt in pat:
                     ms.extend(re.compile(pat_to_regex(alt)).finditer(body))
-                if len(ms) != 1:
-                    raise ExtractError("%s: splice anchor `%s` matched %d times" % (b.id, "` | `".join(pat), len(ms)))
+                ms.sort(key=lambda x: x.start())
+                if len(ms) != total:
+                    raise ExtractError("%s: splice anchor `%s` matched %d times (expected %d)" % (b.id, "` | `".join(pat), len(ms), total))
+                ms = [ms[nth - 1]]
                 if where == "before":
                     edits.append((ms[0].start(), ms[0].start(), txt, 0))
                 else:
